@@ -5,8 +5,10 @@ package main
 
 import (
 	"go/ast"
+	"go/printer"
 	"go/token"
 	"strconv"
+	"strings"
 )
 
 func init() {
@@ -32,6 +34,9 @@ func init() {
 		g9Trailers()
 		g9AddrSwitches()
 		g9NativeScriptIds()
+		g9NativeScriptHash()
+		g9NativeScriptStructs()
+		g9ShortLex()
 	})
 }
 
@@ -201,4 +206,223 @@ func g9NativeScriptIds() {
 	}
 	l.pf("]\n")
 	l.pf("end GV.Gen.NativeScriptIds\n")
+}
+
+// ---------------------------------------------------------------- round 4 facts (C29, C31)
+
+func g9Print(n ast.Node) string {
+	var sb strings.Builder
+	if err := printer.Fprint(&sb, fset, n); err != nil {
+		fatal("print: %v", err)
+	}
+	return strings.Join(strings.Fields(sb.String()), " ")
+}
+
+// g9NativeScriptHash: what NativeScript.Hash hashes. The body must be the single statement
+//   return ScriptHash(<hashFn>(slices.Concat([]byte{<prefix>}, []byte(<bytes>))))
+// and the three holes are emitted as strings (so that hashing a re-encoding instead of the stored
+// bytes `s.Cbor()`, another prefix or another digest changes a generated definition).
+func g9NativeScriptHash() {
+	p := loadPkg("ledger/common")
+	fd := findFunc(p, "NativeScript", "Hash")
+	if fd == nil {
+		fatal("NativeScript.Hash not found")
+	}
+	l := newLean("NativeScriptHash")
+	l.pf("namespace GV.Gen.NativeScriptHash\n")
+	recv := ""
+	if fd.Recv != nil && len(fd.Recv.List) == 1 && len(fd.Recv.List[0].Names) == 1 {
+		recv = fd.Recv.List[0].Names[0].Name
+	}
+	hashFn, prefix, bytesExpr := "?", "?", "?"
+	whole := g9Print(fd.Body)
+	func() {
+		if len(fd.Body.List) != 1 {
+			return
+		}
+		ret, ok := fd.Body.List[0].(*ast.ReturnStmt)
+		if !ok || len(ret.Results) != 1 {
+			return
+		}
+		conv, ok := ret.Results[0].(*ast.CallExpr)
+		if !ok || g9Print(conv.Fun) != "ScriptHash" || len(conv.Args) != 1 {
+			return
+		}
+		hc, ok := conv.Args[0].(*ast.CallExpr)
+		if !ok || len(hc.Args) != 1 {
+			return
+		}
+		cc, ok := hc.Args[0].(*ast.CallExpr)
+		if !ok || g9Print(cc.Fun) != "slices.Concat" || len(cc.Args) != 2 {
+			return
+		}
+		lit, ok := cc.Args[0].(*ast.CompositeLit)
+		if !ok || g9Print(lit.Type) != "[]byte" || len(lit.Elts) != 1 {
+			return
+		}
+		bc, ok := cc.Args[1].(*ast.CallExpr)
+		if !ok || g9Print(bc.Fun) != "[]byte" || len(bc.Args) != 1 {
+			return
+		}
+		hashFn, prefix, bytesExpr = g9Print(hc.Fun), g9Print(lit.Elts[0]), g9Print(bc.Args[0])
+	}()
+	l.pf("def receiver : String := %s\n", strconv.Quote(recv))
+	l.pf("def hashFn : String := %s\n", strconv.Quote(hashFn))
+	l.pf("def prefixExpr : String := %s\n", strconv.Quote(prefix))
+	l.pf("def bytesExpr : String := %s\n", strconv.Quote(bytesExpr))
+	l.pf("def body : String := %s\n", strconv.Quote(whole))
+	l.pf("def prefixValue : Nat := %s -- ledger/common.ScriptRefTypeNativeScript\n", constOf("ledger/common", "ScriptRefTypeNativeScript"))
+	// where the stored bytes come from: the first statement of NativeScript.UnmarshalCBOR
+	first := "?"
+	if ud := findFunc(p, "NativeScript", "UnmarshalCBOR"); ud != nil && len(ud.Body.List) > 0 {
+		first = g9Print(ud.Body.List[0])
+		if len(ud.Type.Params.List) == 1 && len(ud.Type.Params.List[0].Names) == 1 {
+			l.pf("def unmarshalParam : String := %s\n", strconv.Quote(ud.Type.Params.List[0].Names[0].Name))
+		}
+	}
+	l.pf("def unmarshalFirstStmt : String := %s\n", strconv.Quote(first))
+	l.pf("end GV.Gen.NativeScriptHash\n")
+}
+
+// g9NativeScriptStructs: field names and types, in order, of the NativeScript* structures the
+// decoder fills by position (cbor.StructAsArray).
+func g9NativeScriptStructs() {
+	p := loadPkg("ledger/common")
+	want := []string{"NativeScriptPubkey", "NativeScriptAll", "NativeScriptAny", "NativeScriptNofK",
+		"NativeScriptInvalidBefore", "NativeScriptInvalidHereafter", "NativeScriptRequireGuard"}
+	found := map[string][]string{}
+	for _, f := range p.files {
+		for _, d := range f.Decls {
+			gd, ok := d.(*ast.GenDecl)
+			if !ok || gd.Tok != token.TYPE {
+				continue
+			}
+			for _, sp := range gd.Specs {
+				ts := sp.(*ast.TypeSpec)
+				st, ok := ts.Type.(*ast.StructType)
+				if !ok {
+					continue
+				}
+				fields := []string{}
+				for _, fl := range st.Fields.List {
+					t := g9Print(fl.Type)
+					if len(fl.Names) == 0 {
+						fields = append(fields, "embedded "+t)
+					}
+					for _, n := range fl.Names {
+						fields = append(fields, n.Name+" "+t)
+					}
+				}
+				found[ts.Name.Name] = fields
+			}
+		}
+	}
+	l := newLean("NativeScriptStructs")
+	l.pf("namespace GV.Gen.NativeScriptStructs\n")
+	l.pf("def table : List (String × List String) := [\n")
+	for i, w := range want {
+		fs, ok := found[w]
+		if !ok {
+			fatal("struct %s not found", w)
+		}
+		q := make([]string, len(fs))
+		for j, f := range fs {
+			q[j] = strconv.Quote(f)
+		}
+		sep := ","
+		if i == len(want)-1 {
+			sep = ""
+		}
+		l.pf("  (%s, [%s])%s\n", strconv.Quote(w), strings.Join(q, ", "), sep)
+	}
+	l.pf("]\n")
+	l.pf("end GV.Gen.NativeScriptStructs\n")
+}
+
+// g9ShortLex: a translator for exactly the shape of common.ShortLex:
+//   if len(a) OP len(b) { return K } ... ; for i := range a { if a[i] OP b[i] { return K } ... } ; return K
+// into a Lean function over byte lists. Comparison operators and returned constants are taken from
+// the source; anything else is refused.
+func g9ShortLex() {
+	p := loadPkg("ledger/common")
+	fd := findFunc(p, "", "ShortLex")
+	if fd == nil {
+		fatal("ShortLex not found")
+	}
+	if len(fd.Type.Params.List) != 1 || len(fd.Type.Params.List[0].Names) != 2 || g9Print(fd.Type.Params.List[0].Type) != "[]byte" {
+		fatal("ShortLex: unexpected parameters")
+	}
+	a, b := fd.Type.Params.List[0].Names[0].Name, fd.Type.Params.List[0].Names[1].Name
+	leanOp := map[token.Token]string{token.LSS: "<", token.GTR: ">", token.LEQ: "≤", token.GEQ: "≥", token.EQL: "=", token.NEQ: "≠"}
+	retConst := func(s ast.Stmt) string {
+		r, ok := s.(*ast.ReturnStmt)
+		if !ok || len(r.Results) != 1 {
+			fatal("ShortLex: expected `return <const>`")
+		}
+		v := g9Print(r.Results[0])
+		if _, err := strconv.Atoi(v); err != nil {
+			fatal("ShortLex: return value %q is not an integer literal", v)
+		}
+		if strings.HasPrefix(v, "-") {
+			return "(" + v + ")"
+		}
+		return v
+	}
+	// rule: (operator, returned constant) for an `if L OP R { return K }` whose operands print as wantL / wantR
+	rule := func(s ast.Stmt, wantL, wantR string) (string, string) {
+		is, ok := s.(*ast.IfStmt)
+		if !ok || is.Init != nil || is.Else != nil || len(is.Body.List) != 1 {
+			fatal("ShortLex: unexpected statement %s", g9Print(s))
+		}
+		be, ok := is.Cond.(*ast.BinaryExpr)
+		if !ok || g9Print(be.X) != wantL || g9Print(be.Y) != wantR {
+			fatal("ShortLex: unexpected condition %s", g9Print(is.Cond))
+		}
+		op, ok := leanOp[be.Op]
+		if !ok {
+			fatal("ShortLex: unexpected operator %s", be.Op)
+		}
+		return op, retConst(is.Body.List[0])
+	}
+	var lenRules, elemRules [][2]string
+	var final string
+	st := fd.Body.List
+	i := 0
+	for ; i < len(st); i++ {
+		if _, ok := st[i].(*ast.IfStmt); !ok {
+			break
+		}
+		op, k := rule(st[i], "len("+a+")", "len("+b+")")
+		lenRules = append(lenRules, [2]string{op, k})
+	}
+	if i+2 != len(st) {
+		fatal("ShortLex: expected `for` then `return`")
+	}
+	rs, ok := st[i].(*ast.RangeStmt)
+	if !ok || rs.Value != nil || g9Print(rs.X) != a || rs.Tok != token.DEFINE {
+		fatal("ShortLex: expected `for i := range %s`", a)
+	}
+	idx := g9Print(rs.Key)
+	for _, s := range rs.Body.List {
+		op, k := rule(s, a+"["+idx+"]", b+"["+idx+"]")
+		elemRules = append(elemRules, [2]string{op, k})
+	}
+	final = retConst(st[i+1])
+	l := newLean("ShortLex")
+	l.pf("namespace GV.Gen.ShortLex\n")
+	l.pf("/-- the element loop of `ShortLex` (`for i := range a` over two slices of equal length) -/\n")
+	l.pf("def go : List UInt8 → List UInt8 → Int\n")
+	l.pf("  | x :: xs, y :: ys =>\n")
+	for _, r := range elemRules {
+		l.pf("    if x.toNat %s y.toNat then %s else\n", r[0], r[1])
+	}
+	l.pf("    go xs ys\n")
+	l.pf("  | _, _ => %s\n", final)
+	l.pf("/-- `common.ShortLex`, translated from the source -/\n")
+	l.pf("def shortLex (a b : List UInt8) : Int :=\n")
+	for _, r := range lenRules {
+		l.pf("  if a.length %s b.length then %s else\n", r[0], r[1])
+	}
+	l.pf("  go a b\n")
+	l.pf("end GV.Gen.ShortLex\n")
 }
